@@ -116,7 +116,7 @@ def _options(rng, sch):
                                  "import os\nfor _i in range(2):\n    os.environ['VF_SETUP_%d' % _i] = '1'\n",
                                  "def _helper():\n    return 1\n\n_helper()"])
     if rng.random() < 0.3:
-        o["shell_setup"] = rng.choice(["export FOO=bar", "echo hello"])
+        o["shell_setup"] = rng.choice(["export FOO=bar", "echo hello", "set -e", "set -eu; export FOO=bar"])
     if rng.random() < 0.3:
         o["launcher"] = "python -u"
     if rng.random() < 0.2:
